@@ -32,7 +32,7 @@
 #define PW 4
 #define PH 2
 #define SN 4
-static int g_prepend = 0, g_append = 0, g_align = 0, g_pool = 0, g_maxn = 6;
+static int g_prepend = 0, g_append = 0, g_align = 0, g_pool = 0, g_maxn = 6, g_faults = 0;
 
 struct model {
     int n;
@@ -46,7 +46,23 @@ struct st {
     struct model mb[NB], mp[NP], ms[NP];
     int nwrites, nallocs;
     long owners_checked;
+    int faults_armed;
 };
+
+/* environment deviation (--faults N): "the k-th next memory request is refused". A memory request is a request to the umem
+ * manager (buffer areas) or a libc malloc of ubuf_block_mem.c / ubuf_mem_common.c (buffer and shared-area descriptors), which
+ * are compiled with -Dmalloc=vf_malloc for this harness. An operation that fails because of a refusal must leave every handle
+ * exactly as it was (the per-step comparison of all handles with their models is the oracle). */
+static struct cumem_mgr *vf_cumem;
+void *vf_malloc(size_t n);
+void *vf_malloc(size_t n)
+{
+    if (vf_cumem && vf_cumem->fail_in > 0 && --vf_cumem->fail_in == 0) {
+        vf_cumem->faults++;
+        return NULL;
+    }
+    return (malloc)(n);
+}
 
 static int walk(struct ubuf *u, uint8_t *out, int max, int *nseg)
 {
@@ -118,11 +134,13 @@ static void *c02_init(void)
 {
     struct st *s = calloc(1, sizeof(*s));
     cumem_mgr_init(&s->cumem);
+    vf_cumem = NULL;
     s->bmgr = ubuf_block_mem_mgr_alloc(g_pool, g_pool, &s->cumem.mgr, g_prepend, g_append, g_align, 0);
     s->pmgr = ubuf_pic_mem_mgr_alloc(g_pool, g_pool, &s->cumem.mgr, 1, 0, 0, 0, 0, 0, 0);
     ubase_assert(ubuf_pic_mem_mgr_add_plane(s->pmgr, "y8", 1, 1, 1));
     s->smgr = ubuf_sound_mem_mgr_alloc(g_pool, g_pool, &s->cumem.mgr, 1, 0);
     ubase_assert(ubuf_sound_mem_mgr_add_plane(s->smgr, "l"));
+    vf_cumem = &s->cumem;
     return s;
 }
 
@@ -145,10 +163,10 @@ static void c02_fini(void *p)
 }
 
 enum { K_ALLOC, K_DUP, K_FREE, K_WRITE, K_SPLICE, K_SPLIT, K_APPEND, K_INSERT, K_DELETE, K_TRUNC, K_RESIZE, K_MERGE,
-       K_PALLOC, K_PDUP, K_PFREE, K_PWRITE, K_BFROMP, K_SALLOC, K_SDUP, K_SFREE, K_SWRITE, K_BFROMS, K_TOUCH };
+       K_PALLOC, K_PDUP, K_PFREE, K_PWRITE, K_BFROMP, K_SALLOC, K_SDUP, K_SFREE, K_SWRITE, K_BFROMS, K_TOUCH, K_FAULT };
 static const char *kn[] = {"alloc", "dup", "free", "write", "splice", "split", "append", "insert", "delete", "truncate", "resize", "merge",
                            "pic_alloc", "pic_dup", "pic_free", "pic_write", "block_from_pic", "sound_alloc", "sound_dup", "sound_free",
-                           "sound_write", "block_from_sound", "touch"};
+                           "sound_write", "block_from_sound", "touch", "refuse-memory-request"};
 struct op {
     int kind, i, o, s;
 };
@@ -211,6 +229,10 @@ static void build_alphabet(void)
             add(K_SPLICE, i, o, 2);
             add(K_SPLICE, i, o, 3);
         }
+    if (g_faults) {
+        add(K_FAULT, 0, 0, 1);
+        add(K_FAULT, 0, 0, 2);
+    }
 }
 
 static void c02_opstr(int opi, char *b, size_t n)
@@ -288,14 +310,32 @@ static int c02_apply(void *p, int opi, bool check)
             nsnap++;
         }
     long frees_before = s->cumem.frees + s->cumem.reallocs;
+    int faults0 = s->cumem.faults;
+#define REFUSED (s->cumem.faults > faults0)
+#define OPFAIL(...)                                                            \
+    do {                                                                       \
+        if (REFUSED)                                                           \
+            goto after_op; /* refused memory: the operation may fail, and must then have changed nothing */ \
+        SEQX_FAIL(__VA_ARGS__);                                                \
+    } while (0)
 
     switch (op->kind) {
+    case K_FAULT:
+        if (s->faults_armed >= g_faults || s->cumem.fail_in != 0)
+            return SEQX_DISABLED;
+        s->cumem.fail_in = op->s;
+        s->faults_armed++;
+        break;
     case K_ALLOC: {
         int j = free_slot(s->B, NB);
         if (j < 0)
             return SEQX_DISABLED;
         s->B[j] = ubuf_block_alloc(s->bmgr, op->s);
-        assert(s->B[j]);
+        if (!s->B[j]) {
+            if (REFUSED)
+                goto after_op;
+            assert(s->B[j]);
+        }
         struct ubuf_block *b = ubuf_block_from_ubuf(s->B[j]);
         s->nallocs++;
         for (int k = 0; k < op->s; k++)
@@ -309,7 +349,7 @@ static int c02_apply(void *p, int opi, bool check)
             return SEQX_DISABLED;
         s->B[j] = ubuf_dup(s->B[i]);
         if (!s->B[j])
-            SEQX_FAIL("dup:failed", "ubuf_dup failed");
+            OPFAIL("dup:failed", "ubuf_dup failed");
         s->mb[j] = s->mb[i];
         break;
     }
@@ -362,7 +402,7 @@ static int c02_apply(void *p, int opi, bool check)
             return SEQX_DISABLED;
         s->B[j] = ubuf_block_splice(s->B[i], op->o, op->s);
         if (!s->B[j])
-            SEQX_FAIL("splice:failed", "in-range splice failed");
+            OPFAIL("splice:failed", "in-range splice failed");
         s->mb[j].n = sn;
         memcpy(s->mb[j].b, s->mb[i].b + op->o, sn);
         break;
@@ -373,7 +413,7 @@ static int c02_apply(void *p, int opi, bool check)
             return SEQX_DISABLED;
         s->B[j] = ubuf_block_split(s->B[i], op->o);
         if (!s->B[j])
-            SEQX_FAIL("split:failed", "in-range split failed");
+            OPFAIL("split:failed", "in-range split failed");
         s->mb[j].n = s->mb[i].n - op->o;
         memcpy(s->mb[j].b, s->mb[i].b + op->o, s->mb[j].n);
         s->mb[i].n = op->o;
@@ -384,7 +424,7 @@ static int c02_apply(void *p, int opi, bool check)
         if (!s->B[i] || !s->B[j] || s->mb[i].n + s->mb[j].n > g_maxn)
             return SEQX_DISABLED;
         if (!ubase_check(ubuf_block_append(s->B[i], s->B[j])))
-            SEQX_FAIL("append:failed", "append failed");
+            OPFAIL("append:failed", "append failed");
         memcpy(s->mb[i].b + s->mb[i].n, s->mb[j].b, s->mb[j].n);
         s->mb[i].n += s->mb[j].n;
         s->B[j] = NULL;
@@ -396,7 +436,7 @@ static int c02_apply(void *p, int opi, bool check)
         if (!s->B[i] || !s->B[j] || s->mb[i].n + s->mb[j].n > g_maxn || at >= s->mb[i].n)
             return SEQX_DISABLED;
         if (!ubase_check(ubuf_block_insert(s->B[i], at, s->B[j])))
-            SEQX_FAIL("insert:failed", "in-range insert failed");
+            OPFAIL("insert:failed", "in-range insert failed");
         memmove(s->mb[i].b + at + s->mb[j].n, s->mb[i].b + at, s->mb[i].n - at);
         memcpy(s->mb[i].b + at, s->mb[j].b, s->mb[j].n);
         s->mb[i].n += s->mb[j].n;
@@ -408,7 +448,7 @@ static int c02_apply(void *p, int opi, bool check)
         if (!s->B[i] || op->o + op->s > s->mb[i].n)
             return SEQX_DISABLED;
         if (!ubase_check(ubuf_block_delete(s->B[i], op->o, op->s)))
-            SEQX_FAIL("delete:failed", "in-range delete failed");
+            OPFAIL("delete:failed", "in-range delete failed");
         memmove(s->mb[i].b + op->o, s->mb[i].b + op->o + op->s, s->mb[i].n - op->o - op->s);
         s->mb[i].n -= op->s;
         break;
@@ -417,7 +457,7 @@ static int c02_apply(void *p, int opi, bool check)
         if (!s->B[i] || op->o > s->mb[i].n)
             return SEQX_DISABLED;
         if (!ubase_check(ubuf_block_truncate(s->B[i], op->o)))
-            SEQX_FAIL("truncate:failed", "in-range truncate failed");
+            OPFAIL("truncate:failed", "in-range truncate failed");
         s->mb[i].n = op->o;
         break;
     case K_RESIZE: {
@@ -427,7 +467,7 @@ static int c02_apply(void *p, int opi, bool check)
         if (op->o + sn > s->mb[i].n)
             return SEQX_DISABLED;
         if (!ubase_check(ubuf_block_resize(s->B[i], op->o, op->s)))
-            SEQX_FAIL("resize:failed", "in-range resize failed");
+            OPFAIL("resize:failed", "in-range resize failed");
         memmove(s->mb[i].b, s->mb[i].b + op->o, sn);
         s->mb[i].n = sn;
         break;
@@ -436,14 +476,18 @@ static int c02_apply(void *p, int opi, bool check)
         if (!s->B[i] || s->mb[i].n == 0)
             return SEQX_DISABLED;
         if (!ubase_check(ubuf_block_merge(s->bmgr, &s->B[i], 0, -1)))
-            SEQX_FAIL("merge:failed", "merge failed");
+            OPFAIL("merge:failed", "merge failed");
         break;
     case K_PALLOC: {
         int j = free_slot(s->P, NP);
         if (j < 0 || s->P[0] || s->P[1])
             return SEQX_DISABLED;
         s->P[j] = ubuf_pic_alloc(s->pmgr, PW, PH);
-        assert(s->P[j]);
+        if (!s->P[j]) {
+            if (REFUSED)
+                goto after_op;
+            assert(s->P[j]);
+        }
         uint8_t *w;
         size_t stride;
         uint8_t a, b2, c;
@@ -462,7 +506,7 @@ static int c02_apply(void *p, int opi, bool check)
             return SEQX_DISABLED;
         s->P[j] = ubuf_dup(s->P[i]);
         if (!s->P[j])
-            SEQX_FAIL("pic_dup:failed", "ubuf_dup(picture) failed");
+            OPFAIL("pic_dup:failed", "ubuf_dup(picture) failed");
         s->mp[j] = s->mp[i];
         break;
     }
@@ -501,7 +545,7 @@ static int c02_apply(void *p, int opi, bool check)
             return SEQX_DISABLED;
         s->B[j] = ubuf_block_mem_alloc_from_pic(s->bmgr, s->P[i], "y8");
         if (!s->B[j])
-            SEQX_FAIL("block_from_pic:failed", "ubuf_block_mem_alloc_from_pic failed");
+            OPFAIL("block_from_pic:failed", "ubuf_block_mem_alloc_from_pic failed");
         /* the block exposes the plane's memory: adopt what it shows, it must be stable from now on */
         s->mb[j].n = walk(s->B[j], s->mb[j].b, MAXN, NULL);
         if (s->mb[j].n < PW * PH)
@@ -513,7 +557,11 @@ static int c02_apply(void *p, int opi, bool check)
         if (j < 0 || s->S[0] || s->S[1])
             return SEQX_DISABLED;
         s->S[j] = ubuf_sound_alloc(s->smgr, SN);
-        assert(s->S[j]);
+        if (!s->S[j]) {
+            if (REFUSED)
+                goto after_op;
+            assert(s->S[j]);
+        }
         uint8_t *w;
         ubase_assert(ubuf_sound_plane_write_uint8_t(s->S[j], "l", 0, -1, &w));
         for (int k = 0; k < SN; k++)
@@ -528,7 +576,7 @@ static int c02_apply(void *p, int opi, bool check)
             return SEQX_DISABLED;
         s->S[j] = ubuf_dup(s->S[i]);
         if (!s->S[j])
-            SEQX_FAIL("sound_dup:failed", "ubuf_dup(sound) failed");
+            OPFAIL("sound_dup:failed", "ubuf_dup(sound) failed");
         s->ms[j] = s->ms[i];
         break;
     }
@@ -563,13 +611,14 @@ static int c02_apply(void *p, int opi, bool check)
             return SEQX_DISABLED;
         s->B[j] = ubuf_block_mem_alloc_from_sound(s->bmgr, s->S[i], "l");
         if (!s->B[j])
-            SEQX_FAIL("block_from_sound:failed", "ubuf_block_mem_alloc_from_sound failed");
+            OPFAIL("block_from_sound:failed", "ubuf_block_mem_alloc_from_sound failed");
         s->mb[j].n = walk(s->B[j], s->mb[j].b, MAXN, NULL);
         if (s->mb[j].n < SN)
             SEQX_FAIL("block_from_sound:too-small", "block made from %d samples has %d octets", SN, s->mb[j].n);
         break;
     }
     }
+after_op:
     if (!check)
         return SEQX_OK;
     int r = verify_all(s, kn[op->kind]);
@@ -609,6 +658,8 @@ static int c02_apply(void *p, int opi, bool check)
 static void c02_canon(void *p, struct vbuf *out)
 {
     struct st *s = p;
+    vbuf_u8(out, (uint8_t)s->cumem.fail_in);
+    vbuf_u8(out, (uint8_t)s->faults_armed);
     uint8_t *areas[64];
     int na = 0;
     for (int i = 0; i < NB; i++) {
@@ -736,6 +787,7 @@ int main(int argc, char **argv)
         else if (!strcmp(argv[i], "--append")) g_append = atoi(argv[i + 1]);
         else if (!strcmp(argv[i], "--align")) g_align = atoi(argv[i + 1]);
         else if (!strcmp(argv[i], "--pool")) g_pool = atoi(argv[i + 1]);
+        else if (!strcmp(argv[i], "--faults")) g_faults = atoi(argv[i + 1]);
         else if (!strcmp(argv[i], "--depth")) depth = atoi(argv[i + 1]);
     }
     build_alphabet();
